@@ -343,6 +343,9 @@ func (c *Context) Quo(d, x, y *Decimal) (Condition, error) {
 	// so, we determine whether the remainder was more or less than half of the
 	// divisor and round accordingly.
 	nd := NumDigits(&d.Coeff)
+	// carry is 1 if rounding up rolled the coefficient over to one more digit
+	// (99 -> 100), in which case roundAddOne drops the extra digit again.
+	var carry int64
 	if rem.Sign() != 0 {
 		// Use the adjusted exponent to determine if we are Subnormal.
 		// If so, don't round. This computation of adj and the check
@@ -353,7 +356,7 @@ func (c *Context) Quo(d, x, y *Decimal) (Condition, error) {
 			rem.Mul(&rem, bigTwo)
 			half := rem.Cmp(&divisor)
 			if c.Rounding.ShouldAddOne(&d.Coeff, d.Negative, half) {
-				d.Coeff.Add(&d.Coeff, bigOne)
+				roundAddOne(&d.Coeff, &carry)
 				// The coefficient changed, so recompute num digits in
 				// setExponent.
 				nd = unknownNumDigits
@@ -361,7 +364,7 @@ func (c *Context) Quo(d, x, y *Decimal) (Condition, error) {
 		}
 	}
 
-	res |= d.setExponent(c, nd, res, shift, -adjCoeffs, -adjExp10)
+	res |= d.setExponent(c, nd, res, shift, -adjCoeffs, -adjExp10, carry)
 	return c.goError(res)
 }
 
